@@ -111,7 +111,8 @@ def all_classes(ctx, L):
                       b"a\xc3\xa9\xe2\x82\xacb\xf0\x9f\x98\x80c\n", b"\xc3\xa9\xc3\xa9", b"\x80\xbf\xc3"],
              "line": [b"a\r\nb\r\nc\r\n", b"h\nDDBEGIN\na\nb\nDDEND\nt\n"],
              "symbol": [b"f(a){b;c};g[1]=2;\n"],
-             "jsstr": [b"x = 'ab' + \"cd\\x41\";\ny = 'e';\n"],
+             "jsstr": [b"x = 'ab' + \"cd\\x41\";\ny = 'e';\n", b"s = 'a\\uD83D\\uDE00b\\ud83d\\ude00' + \"\\u{1F600}\\uD83D\";\n",
+                       b"'\\xF0\\x9F\\x98\\x80\\360\\237'\n"],
              "attrs": [b"<p a=1 b=\"2\" c>t<q d='3'>\n"]}
     for kind, datas in files.items():
         for data in datas:
